@@ -44,44 +44,129 @@ func c08R1(p *core.Program, r *core.Report, pl *pipeline) {
 	f := pl.pkgExec
 	info := f.Info()
 	g := graph(f)
-	// the cached early return: a return that is reachable without passing universe.Package(pkg)
+	// the skip decision: a boolean predicate of the package (a function that compares the sums), or - when that function
+	// was merged into this one - a boolean local that holds its answer (every assignment to it is an answer)
+	sumName := core.GM("pkg/sumfile", "*File", "Sum")
 	var pred *core.Func
 	var predCall *ast.CallExpr
 	for _, br := range g.Branches() {
 		for _, c := range core.Calls(br.Cond, true) {
 			if callee := p.FuncOfObj(core.CalleeFunc(info, c)); callee != nil && callee.Pkg == f.Pkg && callee.Type.Results != nil && len(callee.Type.Results.List) == 1 {
 				if b, ok := info.TypeOf(c).Underlying().(*types.Basic); ok && b.Kind() == types.Bool && pred == nil {
-					pred, predCall = callee, c
+					if fl := flatten(p, callee); fl != nil && len(core.CallsTo(fl.Info(), fl.Body, true, sumName)) > 0 {
+						pred, predCall = fl, c
+					}
 				}
 			}
 		}
 	}
-	if pred != nil {
-		pred = flatten(p, pred)
-	}
+	var flag *types.Var
 	if pred == nil {
+		ast.Inspect(f.Body, func(n ast.Node) bool {
+			as, ok := n.(*ast.AssignStmt)
+			if !ok || len(as.Lhs) != 1 || len(as.Rhs) != 1 {
+				return true
+			}
+			v := core.VarOf(info, as.Lhs[0])
+			if v == nil || v.IsField() || isParamOf(f, v) {
+				return true
+			}
+			if bt, isB := v.Type().Underlying().(*types.Basic); !isB || bt.Kind() != types.Bool {
+				return true
+			}
+			if len(core.CallsTo(info, as.Rhs[0], true, sumName)) > 0 && flag == nil {
+				flag = v
+			}
+			return true
+		})
+	}
+	if pred == nil && flag == nil {
 		r.Anchor(rule, "boolean skip predicate tested at the start of the per-package function")
 		return
 	}
-	// early return taken only when the predicate answered false, for the function's own package argument
-	argOK := len(predCall.Args) == 1 && core.VarOf(info, predCall.Args[0]) != nil && isParamOf(f, core.VarOf(info, predCall.Args[0]))
-	samePkg := false
-	for _, c := range core.CallsTo(info, f.Body, true, core.GM("pkg/types", "*Universe", "Package")) {
-		if argOK && core.SameRef(info, c.Args[0], predCall.Args[0]) {
-			samePkg = true
+	// isPred: the expression is the predicate's answer (the call, or the flag)
+	isPred := func(e ast.Expr) bool {
+		e = ast.Unparen(e)
+		if pred != nil {
+			c, ok := e.(*ast.CallExpr)
+			return ok && c == predCall
+		}
+		return core.VarOf(info, e) == flag
+	}
+	mentionsPred := func(e ast.Expr) bool {
+		hit := false
+		ast.Inspect(e, func(n ast.Node) bool {
+			if x, ok := n.(ast.Expr); ok && isPred(x) {
+				hit = true
+			}
+			return !hit
+		})
+		return hit
+	}
+	// the answers: (expression, point, graph, body) - returns of the predicate, or assignments to the flag
+	type answer struct {
+		e    ast.Expr
+		at   cfgxPoint
+		g    *cfgx.G
+		in   *core.Func
+		node ast.Node
+	}
+	var answers []answer
+	var key *types.Var
+	var predPos token.Pos
+	if pred != nil {
+		predPos = predCall.Pos()
+		pg := graph(pred)
+		if ps := pred.Type.Params.List; len(ps) == 1 && len(ps[0].Names) == 1 {
+			key, _ = pred.Info().ObjectOf(ps[0].Names[0]).(*types.Var)
+		}
+		for _, rp := range pg.Points(func(n ast.Node) bool { _, ok := n.(*ast.ReturnStmt); return ok }) {
+			ret := rp.Node().(*ast.ReturnStmt)
+			if len(ret.Results) == 1 {
+				answers = append(answers, answer{ret.Results[0], rp, pg, pred, ret})
+			}
+		}
+	} else {
+		for _, dp := range g.Points(func(n ast.Node) bool { return g.Assigns(n, flag) }) {
+			if as, ok := dp.Node().(*ast.AssignStmt); ok && len(as.Rhs) == 1 && len(as.Lhs) == 1 {
+				answers = append(answers, answer{as.Rhs[0], dp, g, f, as})
+				if predPos == token.NoPos {
+					predPos = as.Pos()
+				}
+			} else if dp.Node() != nil {
+				answers = append(answers, answer{nil, dp, g, f, dp.Node()})
+			}
+		}
+		// the key: the parameter the package is looked up with
+		for _, c := range core.CallsTo(info, f.Body, true, core.GM("pkg/types", "*Universe", "Package")) {
+			if v := core.VarOf(info, c.Args[0]); v != nil && isParamOf(f, v) {
+				key = v
+			}
 		}
 	}
-	r.Check(argOK && samePkg, rule, f, "the skip decision is asked for the package that is executed", predCall.Pos(), "predicate(pkg) and universe.Package(pkg) use the same parameter", "the skip predicate is asked about another key than the package being executed")
+	// early return taken only when the predicate answered false, for the function's own package argument
+	argOK, samePkg := false, false
+	if pred != nil {
+		argOK = len(predCall.Args) == 1 && core.VarOf(info, predCall.Args[0]) != nil && isParamOf(f, core.VarOf(info, predCall.Args[0]))
+		for _, c := range core.CallsTo(info, f.Body, true, core.GM("pkg/types", "*Universe", "Package")) {
+			if argOK && core.SameRef(info, c.Args[0], predCall.Args[0]) {
+				samePkg = true
+			}
+		}
+	} else {
+		argOK, samePkg = key != nil, key != nil // the answers are judged against this key below
+	}
+	r.Check(argOK && samePkg, rule, f, "the skip decision is asked for the package that is executed", predPos, "predicate(pkg) and universe.Package(pkg) use the same parameter", "the skip predicate is asked about another key than the package being executed")
 	// (a) a cached return exists under predicate == false, with no work before it
 	early := 0
 	for _, rp := range g.Points(func(n ast.Node) bool { _, ok := n.(*ast.ReturnStmt); return ok }) {
 		for _, fct := range g.FactsAt(rp) {
-			if c, ok := ast.Unparen(fct.Cond).(*ast.CallExpr); ok && c == predCall && !fct.Val {
+			if isPred(fct.Cond) && !fct.Val {
 				early++
 			}
 		}
 	}
-	r.Check(early >= 1, rule, f, "an unchanged package returns early", predCall.Pos(), "a return under predicate == false", "no early return on the 'unchanged' answer: the cache never skips (or the predicate's answer is not used)")
+	r.Check(early >= 1, rule, f, "an unchanged package returns early", predPos, "a return under predicate == false", "no early return on the 'unchanged' answer: the cache never skips (or the predicate's answer is not used)")
 	// (b) on the 'changed' answer the package is always looked up and processed
 	var work cfgxPoint
 	for _, c := range core.CallsTo(info, f.Body, true, core.GM("pkg/types", "*Universe", "Package")) {
@@ -90,14 +175,12 @@ func c08R1(p *core.Program, r *core.Report, pl *pipeline) {
 	var predBr *cfgBlock
 	predTrue := 0
 	for _, br := range g.Branches() {
-		for _, c := range core.Calls(br.Cond, true) {
-			if c == predCall {
-				predBr = br.B
-				// which successor means predicate == true?
-				for _, a := range cfgxAtoms(br.Cond, true) {
-					if cc, ok := ast.Unparen(a.Cond).(*ast.CallExpr); ok && cc == predCall && !a.Val {
-						predTrue = 1
-					}
+		if mentionsPred(br.Cond) && predBr == nil {
+			predBr = br.B
+			// which successor means predicate == true?
+			for _, a := range cfgxAtoms(br.Cond, true) {
+				if isPred(a.Cond) && !a.Val {
+					predTrue = 1
 				}
 			}
 		}
@@ -109,38 +192,32 @@ func c08R1(p *core.Program, r *core.Report, pl *pipeline) {
 			Target: func(q cfgxPoint) bool { return g.IsExit(q) },
 			Cut:    func(q cfgxPoint) bool { return q == work },
 		})
-		r.Check(!escapes, rule, f, "a changed package is always processed", predCall.Pos(), "from the 'changed' edge every path reaches the package lookup", "on the 'changed' answer the function can still return without processing the package: a changed package is skipped")
-		r.Check(g.EdgeDominates(predBr, predTrue, work), rule, f, "processing happens only on the 'changed' answer", predCall.Pos(), "package lookup dominated by predicate == true", "the package is processed although the predicate answered 'unchanged' (cache ineffective) or the answer is ignored")
+		r.Check(!escapes, rule, f, "a changed package is always processed", predPos, "from the 'changed' edge every path reaches the package lookup", "on the 'changed' answer the function can still return without processing the package: a changed package is skipped")
+		r.Check(g.EdgeDominates(predBr, predTrue, work), rule, f, "processing happens only on the 'changed' answer", predPos, "package lookup dominated by predicate == true", "the package is processed although the predicate answered 'unchanged' (cache ineffective) or the answer is ignored")
 	}
-	// the predicate itself
-	pinfo := pred.Info()
-	pg := graph(pred)
-	var key *types.Var
-	if ps := pred.Type.Params.List; len(ps) == 1 && len(ps[0].Names) == 1 {
-		key, _ = pinfo.ObjectOf(ps[0].Names[0]).(*types.Var)
-	}
-	sumName := core.GM("pkg/sumfile", "*File", "Sum")
-	isPrev := func(e ast.Expr) bool {
-		e, _ = core.Resolve(pinfo, pred.Body, e)
-		fld := core.FieldOf(pinfo, e)
-		return isRole(p, fld, "ctx.sumFile")
-	}
-	isCur := func(e ast.Expr) bool {
-		e, _ = core.Resolve(pinfo, pred.Body, e)
-		return core.AsCall(pinfo, e, core.GM("pkg/types", "*Universe", "SumFile")) != nil
-	}
+	// the answers themselves
 	nret := 0
-	for _, rp := range pg.Points(func(n ast.Node) bool { _, ok := n.(*ast.ReturnStmt); return ok }) {
-		ret := rp.Node().(*ast.ReturnStmt)
-		if len(ret.Results) != 1 {
-			continue
+	for _, an := range answers {
+		pinfo := an.in.Info()
+		isPrev := func(e ast.Expr) bool {
+			e, _ = core.Resolve(pinfo, an.in.Body, e)
+			fld := core.FieldOf(pinfo, e)
+			return isRole(p, fld, "ctx.sumFile")
+		}
+		isCur := func(e ast.Expr) bool {
+			e, _ = core.Resolve(pinfo, an.in.Body, e)
+			return core.AsCall(pinfo, e, core.GM("pkg/types", "*Universe", "SumFile")) != nil
 		}
 		nret++
-		if tv := pinfo.Types[ret.Results[0]]; tv.Value != nil {
-			r.Check(tv.Value.String() == "true", rule, pred, "constant answer is 'changed'", ret.Pos(), "return true", "the predicate has a constant 'unchanged' answer: a package is skipped without comparing sums")
+		if an.e == nil {
+			r.Bad(rule, an.in, "a package counts as unchanged only if recorded and current sum are equal for the same key", an.node.Pos(), "the skip flag is set by something else than a plain assignment")
 			continue
 		}
-		b, ok := ast.Unparen(ret.Results[0]).(*ast.BinaryExpr)
+		if tv := pinfo.Types[an.e]; tv.Value != nil {
+			r.Check(tv.Value.String() == "true", rule, an.in, "constant answer is 'changed'", an.node.Pos(), "return true", "the predicate has a constant 'unchanged' answer: a package is skipped without comparing sums")
+			continue
+		}
+		b, ok := ast.Unparen(an.e).(*ast.BinaryExpr)
 		good := false
 		why := "the answer is not `previous.Sum(k) != current.Sum(k)`"
 		if ok && b.Op == token.NEQ {
@@ -161,19 +238,21 @@ func c08R1(p *core.Program, r *core.Report, pl *pipeline) {
 		} else if ok && b.Op == token.EQL {
 			why = "the comparison is inverted (==): unchanged packages are regenerated and changed ones skipped"
 		}
-		r.Check(good, rule, pred, "a package counts as unchanged only if recorded and current sum are equal for the same key", ret.Pos(), "return previous.Sum(k) != current.Sum(k)", why)
+		r.Check(good, rule, an.in, "a package counts as unchanged only if recorded and current sum are equal for the same key", an.node.Pos(), "return previous.Sum(k) != current.Sum(k)", why)
 		// guards
-		facts := pg.FactsAt(rp)
+		facts := an.g.FactsAt(an.at)
 		force, prevNN, curNN := false, false, false
 		// the Force test may sit in front of the predicate's call instead (`!Force && !changed(pkg)`): what is known
 		// where the predicate is called holds inside it
-		callerFacts := g.FactsAt(g.PointOf(predCall))
-		if node := g.PointOf(predCall).Node(); node != nil {
-			callerFacts = append(callerFacts, shortCircuitFacts(node, predCall)...)
-		}
-		for _, fct := range callerFacts {
-			if fld := core.FieldOf(info, fct.Cond); fld != nil && fld.Name() == "Force" && !fct.Val {
-				force = true
+		if pred != nil {
+			callerFacts := g.FactsAt(g.PointOf(predCall))
+			if node := g.PointOf(predCall).Node(); node != nil {
+				callerFacts = append(callerFacts, shortCircuitFacts(node, predCall)...)
+			}
+			for _, fct := range callerFacts {
+				if fld := core.FieldOf(info, fct.Cond); fld != nil && fld.Name() == "Force" && !fct.Val {
+					force = true
+				}
 			}
 		}
 		for _, fct := range facts {
@@ -191,8 +270,8 @@ func c08R1(p *core.Program, r *core.Report, pl *pipeline) {
 				}
 			}
 		}
-		r.Check(force, rule, pred, "Force disables skipping", ret.Pos(), "comparison reached only when Force is false", "the sum comparison can decide although Force is set")
-		r.Check(prevNN && curNN, rule, pred, "a missing sum file means 'changed'", ret.Pos(), "comparison reached only when both files are non-nil", "the comparison is reached with a missing previous/current sum file (nil)")
+		r.Check(force, rule, an.in, "Force disables skipping", an.node.Pos(), "comparison reached only when Force is false", "the sum comparison can decide although Force is set")
+		r.Check(prevNN && curNN, rule, an.in, "a missing sum file means 'changed'", an.node.Pos(), "comparison reached only when both files are non-nil", "the comparison is reached with a missing previous/current sum file (nil)")
 	}
 	if nret == 0 {
 		r.Anchor(rule, "return statements of the skip predicate")
